@@ -65,7 +65,7 @@ def main():
             det = {}
             for p in props:
                 e2 = dict(os.environ, VERIF_REPO=wt)
-                r = sh([PY, os.path.join(VERIF, "check.py"), p, "--tier", args.tier, "--no-evidence", "--replay-dir", os.path.join(tmp, "rp"), "--jobs", str(args.jobs)] + (["--budget", str(args.budget)] if args.budget else []),
+                r = sh([PY, os.path.join(VERIF, "check.py"), p, "--tier", args.tier, "--no-evidence", "--no-shrink", "--replay-dir", os.path.join(tmp, "rp"), "--jobs", str(args.jobs)] + (["--budget", str(args.budget)] if args.budget else []),
                        env=e2, timeout=3000)
                 rules = sorted({ln.split("rule=")[1].split(" ")[0] for ln in r.stdout.splitlines() if ln.startswith("violation rule=")})
                 det[p] = {"rc": r.returncode, "detected": r.returncode == 1 and f"VIOLATION property={p}" in r.stdout, "rules": rules}
